@@ -247,6 +247,14 @@ pub fn run_worker<P: Prop>(tier: Tier, seed: u64, worker: usize, cases: u64) -> 
             }
             Outcome::Violation { clause, key, msg } => {
                 let signature = format!("{clause}:{key}");
+                // exploration mode (development aid): count signatures, no shrinking
+                if std::env::var("KVH_EXPLORE").is_ok() {
+                    *frag.classes.entry(format!("viol:{signature}")).or_default() += 1;
+                    if frag.samples.len() < 40 {
+                        frag.samples.push(serde_json::json!({"signature": signature, "msg": msg.chars().take(600).collect::<String>()}));
+                    }
+                    continue;
+                }
                 // shrink, keeping the same clause
                 let mut best = (case.clone(), msg.clone(), signature.clone());
                 let mut budget = P::shrink_budget();
